@@ -3,6 +3,7 @@
 // C18 (SYST:ERR? yields one well-formed bounded response; malloc + heap builds)
 // share one workload: histories of firmware pushes/pops/clears/counts
 // interleaved with controller traffic, with allocation faults.
+#include <memory>
 #include <deque>
 
 #include "../world.h"
@@ -398,7 +399,51 @@ void execute_queue(const Plan &plan, Verdict &v, Mode mode) {
             }
         };
         (void) count_before_handler;
+        // a second instrument context with a queue and (in the static-heap build) a text heap of its own, answering SYST:ERR? from
+        // inside the first one's write callback: its text is stored wrapped around the end of its heap
+        std::unique_ptr<World> inner;
+        long relay_countdown = -1;
+        auto relay = [&]() {
+            if (!inner) {
+                WorldCfg ic;
+                ic.queue = 3;
+                ic.heap = 24;
+                inner.reset(new World(ic));
+                inner->add_standard_commands();
+                inner->seal();
+            }
+            // rotate the inner heap so that the next text wraps, then queue one error with a known text and ask for it
+            static const char *fill = "aaaaaaaaaaaaaa";
+            static const char *text = "usb/fan-2 \"stalled\"";
+            int c0;
+            std::string t0;
+            bool h0;
+            uint64_t failed0 = g_alloc.failed;
+            bool saved_last = g_alloc.last_failed;
+            // (the heap rewinds whenever the queue drains, so a short entry is kept queued while the filler is released)
+            inner->fw_clear();
+            inner->fw_push(-100, fill, 0);
+            inner->fw_push(-101, "k", 0);
+            inner->fw_pop(c0, t0, h0);
+            inner->fw_push(-200, text, 0);
+            inner->fw_pop(c0, t0, h0);
+            size_t o0 = inner->out.size();
+            inner->input("SYST:ERR?\n");
+            std::string got = inner->out.substr(o0);
+            COUNT("fault_second_context_answers_error_query_inside_write_callback");
+            // expected: -200,"Execution error[;usb/fan-2 ""stalled""]" + terminator (text or nothing in the static-heap build; no text without info)
+            std::string d = std::string("-200,\"") + describe(-200);
+            std::string with_text = d + ";usb/fan-2 \"\"stalled\"\"\"" + line_ending(), without = d + "\"" + line_ending();
+            bool alloc_failed = g_alloc.failed != failed0;   // an injected allocation failure may have hit the second context's push
+            g_alloc.last_failed = saved_last;
+            bool ok = SIM_HAS_INFO ? (got == with_text || ((SIM_HEAP || alloc_failed) && got == without)) : got == without;
+            if (!ok && !v.violated)
+                v.fail("resp-text", "second-context", fmt("second context, asked from inside the write callback of the first, answered \"%s\"", c_escape(got).c_str()));
+        };
         w.write_hook = [&](World &ww) {
+            if (relay_countdown >= 0 && !v.violated && ww.in_handler) {
+                if (relay_countdown-- == 0) relay();
+            }
             if (!armed.on || v.violated || !ww.in_handler) return;
             UnitRec *u = ww.unit();
             if (!u || u->tag == tag_count) return;
@@ -557,6 +602,8 @@ void execute_queue(const Plan &plan, Verdict &v, Mode mode) {
                 armed.has_s = op.has_s;
                 armed.text = op.s;
                 armed.clear = false;
+            } else if (op.kind == "wrrelay") {
+                relay_countdown = clampl(op.arg(0), 0, 12);
             } else if (op.kind == "wrclear") {
                 armed.on = true;
                 armed.countdown = clampl(op.arg(0), 0, 12);
@@ -755,6 +802,7 @@ void generate_queue(Rng &r, const GenOpts &g, Plan &p, Mode mode) {
                 p.ops.push_back(Op("push", {code, lenarg, 0}, t));
             } else if (kind <= 5) {
                 if (r.chance(1, 8)) p.ops.push_back(Op("wrpush", {(long) r.below(7), (long) gen_code(r), 0}, gen_text(r, uniq++, r.range(0, 60), true)));
+                if (r.chance(1, 10)) p.ops.push_back(Op("wrrelay", {(long) r.below(8)}));
                 p.ops.push_back(Op("msg", {}, r.chance(1, 4) ? "SYST:ERR?;:SYST:ERR?\n" : "SYST:ERR?\r\n"));
             } else if (kind == 6) {
                 p.ops.push_back(Op("pop"));
@@ -802,6 +850,26 @@ void generate_queue(Rng &r, const GenOpts &g, Plan &p, Mode mode) {
                 p.ops.push_back(Op("msg", {}, gen_queue_msg(r, uniq)));
                 break;
             default:
+                if (heap && r.chance(1, 8)) {
+                    // make the text at the head of the queue one that is stored around the end of the heap, then answer it while a
+                    // second context answers a wrapped text of its own
+                    // (the heap rewinds whenever the queue drains: a short entry stays queued while the filler is released)
+                    long hs = p.knob["heap"];
+                    size_t a = (size_t) std::max(1L, hs * 2 / 3), c = (size_t) std::max(2L, hs / 2);
+                    std::string ta = gen_text(r, uniq++, (long) a, false), tc = gen_text(r, uniq++, (long) c, quotes);
+                    ta.resize(a, 'f');
+                    tc.resize(c, 'w');
+                    p.ops.push_back(Op("clear"));
+                    p.ops.push_back(Op("push", {-(long) r.range(100, 300), 0, 0}, ta));
+                    p.ops.push_back(Op("push", {-(long) r.range(100, 300), 0, 0}, "k"));
+                    p.ops.push_back(Op("pop"));
+                    p.ops.push_back(Op("push", {-(long) r.range(100, 300), 0, 0}, tc));
+                    p.ops.push_back(Op("msg", {}, "SYST:ERR?\n"));
+                    p.ops.push_back(Op("wrrelay", {(long) r.below(8)}));
+                    p.ops.push_back(Op("msg", {}, "SYST:ERR?\n"));
+                    break;
+                }
+                if (r.chance(1, 12)) p.ops.push_back(Op("wrrelay", {(long) r.below(8)}));
                 if (r.chance(1, 20)) p.ops.push_back(Op("wrclear", {(long) r.below(7)}));
                 else if (r.chance(1, 5)) {
                     if (r.chance(1, 4))
@@ -849,7 +917,7 @@ const Property C20 = {
 const Property C18 = {
     "C18",
     "The error query always yields one well-formed, bounded error response",
-    {"malloc", "heap", "user"},
+    {"malloc", "heap", "user", "noinfouser"},
     gen_c18,
     exec_c18,
     {"probe_response_cut_at_limit", "error_queries"},
